@@ -572,6 +572,8 @@ class Machine:
         self.ctx = None
         self.lit_cache = {}
         self.callkey_cache = {}
+        self.fn_stack = []
+        self.hash_ties_any = False   # max_by_key / min_by_key directly over a hash iteration: any of the tied extremal entries
         self.stubs = {}        # callee key -> python function (harness-level environment stubs)
         self.encoded = {}      # crate function name -> call count (evidence)
         self.depth = 0
@@ -602,6 +604,7 @@ class Machine:
         self.ctx = ctx
         CURRENT[0] = ctx
         self.depth = 0
+        self.fn_stack = []
         self.solver.push()
         try:
             try:
@@ -668,6 +671,7 @@ class Machine:
         self.depth += 1
         if self.depth > 400:
             raise BoundExceeded('call depth')
+        self.fn_stack.append(fn.name)
         bb = 0
         blocks = fn.blocks
         try:
@@ -720,6 +724,7 @@ class Machine:
             raise
         finally:
             self.depth -= 1
+            self.fn_stack.pop()
             self.cur_tyenv = saved_env
 
     def call_value(self, f, args):
